@@ -152,7 +152,7 @@ def make_rule(rname):
 # ---------------------------------------------------------------------------------------------------
 # Enumeration
 # ---------------------------------------------------------------------------------------------------
-BOUNDS = {"quick": {0: 0, 1: 9, 2: 2, 3: 1}, "thorough": {0: 0, 1: 9, 2: 9, 3: 3}}
+BOUNDS = {"quick": {0: 9, 1: 9, 2: 2, 3: 1}, "thorough": {0: 9, 1: 9, 2: 9, 3: 3}}
 
 
 def _driver_for(k, rname):
@@ -185,8 +185,10 @@ def plan(tier, seed):
                 items.append(case)
             per[f"k{k}"] = per.get(f"k{k}", 0) + st.leaves - n0
     d = st.as_dict()
-    d["bound"] = max(BOUNDS[tier].values())
-    d["bounds"] = {f"k={k}": ("all" if (k <= 1) else f"<= {b} deviations from (main, plain, none, on, none)")
+    d["bound"] = BOUNDS[tier][3]   # the tightest one (k=3); per-k bounds below
+    d["bounds"] = {f"k={k}": ("all placements and flags" if b >= 2 * k + 3 else
+                              f"<= {b} deviations from the default (every block main/plain, extra none, "
+                              f"metadata on, clash none)")
                    for k, b in BOUNDS[tier].items()}
     d["exhaustive"] = not st.capped
     d["dimensions"] = {k: len(v) for k, v in st.dim_hist.items()}
@@ -521,7 +523,7 @@ def _fams_of(cand):
     return _FAM_CACHE[ck], ran
 
 
-def _minimise(item, family, budget=24):
+def _minimise(item, family, budget=80):
     """Greedy reduction of the host while a violation of the same family persists."""
     cur = json.loads(json.dumps(item))
     pk = item["kind"]
@@ -529,8 +531,8 @@ def _minimise(item, family, budget=24):
 
     def still(cand):
         nonlocal runs
-        fams, ran = _fams_of(cand)
-        runs += int(ran)
+        runs += 1          # candidates tried (not evaluations: the memo must not influence the result)
+        fams, _ran = _fams_of(cand)
         return family in fams
 
     changed = True
@@ -631,7 +633,7 @@ def execute(item):
     for fam in order:
         kind, apis, detail = fams[fam]
         mini, runs = _minimise(item, fam)
-        counts["minimisation_runs"] += runs
+        counts["minimisation_candidates"] += runs
         mf, _ = _fams_of(mini)
         if fam in mf:
             mkind, mapis = mf[fam]
@@ -643,9 +645,9 @@ def execute(item):
                                              "minimal_host": {k: mini[k] for k in ("blocks", "extra", "meta", "clash")}}})
     if viols:
         outcome = "viol:" + "+".join(fams[f][0] for f in order)
-    show = None
-    if viols or not item["blocks"] or len(item["blocks"]) == 3:
-        show = H.render(ev["host"])
+    show = f"{nkey} -> {outcome}"
+    if viols or len(item["blocks"]) <= 1 or (len(item["blocks"]) == 3 and item["extra"] != "none"):
+        show += "\n" + H.render(ev["host"], 1500)
     return {"status": "viol" if viols else "ok", "outcome": outcome, "nkey": nkey, "counts": dict(counts),
             "viols": viols, "show": show}
 
